@@ -94,3 +94,31 @@ def native():
     """Context manager: run a block natively (selector mode, all inputs already concrete)."""
     from crosshair.tracers import NoTracing
     return NoTracing()
+
+
+class Watchdog:
+    """Safety net for native (selector-mode) sections: a run that does not come back within `seconds` raises
+    NonTermination in the worker's main thread.  Termination claims are otherwise made by fuel counters in the
+    harnesses; this only keeps a looping mutant from hanging the check."""
+
+    def __init__(self, seconds):
+        self.seconds = seconds
+
+    def __enter__(self):
+        import signal
+
+        def handler(signum, frame):
+            raise NonTermination("no result within %ss" % self.seconds)
+        self._old = signal.signal(signal.SIGALRM, handler)
+        signal.setitimer(signal.ITIMER_REAL, self.seconds)
+        return self
+
+    def __exit__(self, *a):
+        import signal
+        signal.setitimer(signal.ITIMER_REAL, 0)
+        signal.signal(signal.SIGALRM, self._old)
+        return False
+
+
+class NonTermination(Exception):
+    pass
